@@ -25,6 +25,14 @@ macro_rules! opaque {
     )* } }
 }
 opaque!(TransactionId, Payload, Rejected, Released, Modified, Received, Declared, AmqpError, DeliveryTag, ChanSendError);
+// bytes::Bytes as far as these functions may look at it: its length (R11)
+impl Payload {
+    pub uninterp spec fn spec_len(&self) -> nat;
+    #[verifier::external_body]
+    pub fn len(&self) -> (r: usize) ensures r == self.spec_len() { unimplemented!() }
+    #[verifier::external_body]
+    pub fn is_empty(&self) -> (r: bool) ensures r == (self.spec_len() == 0) { unimplemented!() }
+}
 pub struct Accepted {}
 pub struct Handle(pub u32);
 
